@@ -10,6 +10,7 @@ import (
 	"path/filepath"
 	"sort"
 	"strconv"
+	"sync"
 )
 
 // TOASTPointer represents a TOAST pointer in PostgreSQL
@@ -346,6 +347,7 @@ func decompressLZ4(data []byte, rawSize int) ([]byte, error) {
 
 // TOASTReader provides TOAST-aware value reading
 type TOASTReader struct {
+	mu       sync.Mutex              // guards chunks: one reader may be used from several goroutines
 	chunks   map[uint32][]TOASTChunk // keyed by ToastRelID
 	dataDir  string
 	dbOID    uint32
@@ -369,7 +371,19 @@ func NewTOASTReaderForDB(dataDir string, dbOID uint32) *TOASTReader {
 
 // LoadTOASTTable loads chunks from a TOAST table
 func (r *TOASTReader) LoadTOASTTable(toastRelID uint32, data []byte) {
-	r.chunks[toastRelID] = ReadTOASTTable(data)
+	chunks := ReadTOASTTable(data)
+	r.mu.Lock()
+	r.chunks[toastRelID] = chunks
+	r.mu.Unlock()
+}
+
+// loaded returns the chunks of a TOAST table loaded earlier (the slice is never modified after
+// it has been stored, so it may be read without holding the lock)
+func (r *TOASTReader) loaded(toastRelID uint32) ([]TOASTChunk, bool) {
+	r.mu.Lock()
+	defer r.mu.Unlock()
+	chunks, ok := r.chunks[toastRelID]
+	return chunks, ok
 }
 
 // LoadTOASTTableFromFile loads a TOAST table from the data directory
@@ -398,13 +412,13 @@ func (r *TOASTReader) ReadValue(data []byte) []byte {
 	}
 
 	// Try to load TOAST table if not already loaded
-	if _, ok := r.chunks[ptr.ToastRelID]; !ok {
+	if _, ok := r.loaded(ptr.ToastRelID); !ok {
 		if r.dataDir != "" {
 			r.LoadTOASTTableFromFile(ptr.ToastRelID)
 		}
 	}
 
-	chunks, ok := r.chunks[ptr.ToastRelID]
+	chunks, ok := r.loaded(ptr.ToastRelID)
 	if !ok {
 		return nil
 	}
